@@ -372,6 +372,12 @@ func (g *G) genFaithful(id string) *History {
 	if g.chance(0.3) {
 		rh = Hdr{{"X-A", "1"}}
 	}
+	// sometimes the stored response is validated later and the 304 names, as connection-specific for ITSELF, an
+	// end-to-end field of the stored response: the stored field is none of the 304's business and stays
+	keep304 := g.chance(0.25)
+	if keep304 {
+		rp.Hdr = append(rp.Hdr, [2]string{"X-Keep", "k1"}, [2]string{"Cache-Control", "no-cache"}, [2]string{"Last-Modified", "Fri, 31 Dec 1999 00:00:00 GMT"})
+	}
 	h.Ops = append(h.Ops, Op{Op: "req", AtNs: 0, Method: "GET", URL: url, Hdr: rh, Replies: []Reply{rp}})
 	at := int64(0)
 	for i := 0; i < 1+g.r.Intn(2); i++ {
@@ -379,8 +385,11 @@ func (g *G) genFaithful(id string) *History {
 		if h.Backend != "mem" && g.chance(0.3) {
 			h.Ops = append(h.Ops, Op{Op: "reopen", AtNs: at})
 		}
-		h.Ops = append(h.Ops, Op{Op: "req", AtNs: at, Method: "GET", URL: url, Hdr: rh,
-			Replies: []Reply{{Status: 200, Hdr: Hdr{{"Date", dateAt(at, 0)}}, Body: "second", BodyFail: -1}}})
+		second := Reply{Status: 200, Hdr: Hdr{{"Date", dateAt(at, 0)}}, Body: "second", BodyFail: -1}
+		if keep304 {
+			second = Reply{Status: 304, Hdr: Hdr{{"Date", dateAt(at, 0)}, {"Connection", "X-Keep"}, {"Cache-Control", "max-age=600"}}, BodyFail: -1}
+		}
+		h.Ops = append(h.Ops, Op{Op: "req", AtNs: at, Method: "GET", URL: url, Hdr: rh, Replies: []Reply{second}})
 	}
 	return h
 }
